@@ -189,6 +189,12 @@ def seqR (a : R) (k : G → R) : R :=
   | .error e => ⟨.error e, a.g, a.obs⟩
   | .ok _ => let b := k a.g; ⟨b.res, b.g, a.obs ++ b.obs⟩
 
+/-- `except (OSError, ValueError) as e: self._log.warn(…, neverraise=True)` (cssimportrule.py:330-335) -/
+def swallowImport (r : R) : R :=
+  match r.res with
+  | .error e => if e.swallowedByImport then ⟨.ok (), r.g, r.obs⟩ else r
+  | .ok _ => r
+
 section
 variable (env : Env) (fuel : Nat)
 
@@ -197,16 +203,13 @@ def runStep : Step → G → R
   | .log never, g => doLog never g
   | .imp inner res sub, g =>
     -- cssimportrule.py:296-338: everything is inside `try … except (OSError, ValueError)`
-    let r : R :=
+    swallowImport <|
       seqR ⟨.ok (), g, [.seen g.raising]⟩ fun g =>          -- the fetcher is called (util.py:925)
       seqR (runSteps inner g) fun g =>                       -- whatever it does with the library
       match res with
       | .raises e => ⟨.error e, g, []⟩
       | .nothing => ⟨.error .os, g, []⟩                      -- `raise OSError('Cannot read Stylesheet.')` (:313-315)
       | .content => runSteps sub g                           -- :327-329 imported sheet is parsed
-    match r.res with
-    | .error e => if e.swallowedByImport then ⟨.ok (), r.g, r.obs⟩ else r   -- :330-335 log.warn(neverraise=True)
-    | .ok _ => r
   | .pp k src, g =>
     let r := ctor env fuel k src g.toPG
     let g := { g with toPG := r.g }
